@@ -66,10 +66,10 @@ CHECKS = {
     "C16": ex("model-based PBT over case-mapping strings (special-casing runes, long strings) on top-level/nested/behind-pointer/embedded paths, indexed or not, unique or not, through custom schemas and through struct tags",
               "Stored values, probes and uniqueness are all judged on strings.ToUpper/ToLower canonical forms; idempotence is checked on what the database returns.",
               "DESIGN.md §4 C16"),
-    "C17": ex("PBT over (stored shape, current shape) pairs from a 14-member struct family + generated descriptor edits + generated settings switches on a live handle under the virtual clock",
+    "C17": ex("PBT over (stored shape, current shape) pairs from a 18-member struct family + generated descriptor edits + generated settings switches on a live handle under the virtual clock",
               "Refusals must carry the predicted sentinel on every operation and leave the directory byte-identical; compatible Create is idempotent; cache/async switches at arbitrary points never lose or stale a write and never kill the process.",
               "DESIGN.md §4 C17", "exploration",
-              TRUST + " The current-shape side is a finite hand-written family of 14 shapes (Go types are static)."),
+              TRUST + " The current-shape side is a finite hand-written family of 18 shapes (Go types are static)."),
     "C18": ex("independent directory walker/decoder on generated histories + golden corpus written by the pinned release, opened, extended and re-walked",
               "No sod code is used to judge the layout; 40 directories produced by the pinned release under 26 configurations must open with identical contents, search behaviour and constraints, and stay loadable after generated further writes.",
               "DESIGN.md §4 C18", "exploration",
